@@ -13,6 +13,10 @@ import Driver.Common
 
 open Prim Drv
 
+/-- inside a list the empty byte string is written `z` (a lone `-` is the empty *list*) -/
+def hexOfElem (bs : Bytes) : String := if bs.isEmpty then "z" else hexOf bs
+def ofHexElem (s : String) : Option Bytes := if s == "z" then some [] else ofHex s
+
 def showOp : Op → String
   | .bool b => s!"bool:{if b then 1 else 0}"
   | .byte n => s!"byte:{n}"
@@ -35,7 +39,7 @@ def showOp : Op → String
   | .longArr xs => s!"longArr:{listOf toString xs}"
   | .floatArr xs => s!"floatArr:{listOf toString xs}"
   | .doubleArr xs => s!"doubleArr:{listOf toString xs}"
-  | .textArr xs => s!"textArr:{listOf hexOf xs}"
+  | .textArr xs => s!"textArr:{listOf hexOfElem xs}"
 
 def parseOp (s : String) : Option Op :=
   match s.splitOn ":" with
@@ -62,7 +66,7 @@ def parseOp (s : String) : Option Op :=
     | "longArr" => (parseList parseInt p).map .longArr
     | "floatArr" => (parseList parseNat p).map .floatArr
     | "doubleArr" => (parseList parseNat p).map .doubleArr
-    | "textArr" => (parseList ofHex p).map .textArr
+    | "textArr" => (parseList ofHexElem p).map .textArr
     | _ => none
   | _ => none
 
